@@ -230,14 +230,21 @@ def enumerate_cases(tier, seed=0):
             groups = [[k] for k in FORGEABLE]
             groups += [['reveal', 'transaction'], ['transaction', 'transaction', 'delegation'], ['endorsement', 'endorsement'],
                        ['reveal', 'origination', 'transfer_ticket', 'register_global_constant']]
-            if thorough:
+            if thorough and not bl:
                 groups += [[a, b] for a in MANAGER for b in MANAGER if a != b][::3]
+            if bl and not thorough:
+                # py_ecc budget (about 1 s per group): the manager kinds share one signing path, keep a subset for tz4
+                groups = [['failing_noop'], ['endorsement'], ['endorsement_with_slot'], ['reveal'], ['transaction'], ['origination'],
+                          ['smart_rollup_add_messages'], ['reveal', 'transaction'], ['endorsement', 'endorsement']]
             for gi, kinds in enumerate(groups):
                 consensus = kinds[0] in CONSENSUS_KINDS
-                nvar = 3 if (thorough or (not bl and len(kinds) == 1)) else 1
+                if bl:      # py_ecc budget: sign + reference signature + verify ~ 0.6 s per group
+                    nvar = 3 if (thorough and ki == 0) else 1
+                else:
+                    nvar = 3 if (thorough or len(kinds) == 1) else 1
                 for variant in range(nvar):
                     if consensus:
-                        chains = CHAIN_IDS if (not bl or thorough) else CHAIN_IDS[:2]
+                        chains = CHAIN_IDS if (not bl or thorough) else ([CHAIN_IDS[0], CHAIN_IDS[3]] if len(kinds) == 1 and kinds[0] == 'endorsement' else [CHAIN_IDS[1]])
                     else:
                         chains = CHAIN_IDS[:2] if (thorough and not bl) else [CHAIN_IDS[(gi + variant) % 2]]
                     for chain_id in chains:
